@@ -1,7 +1,10 @@
 """Topology family (C15): connect / disconnect / destroy / drop histories interleaved with emissions on real nodes.
 
 case = {"ops": [["new", kind, [ups]], ["emit", n, int], ["connect", u, d], ["disconnect", u, d], ["destroy", n], ["drop", n]]}
-kinds: pipe | sink | zip | combine
+kinds: pipe | sink | zip | combine | rsink
+ ["remit", n, x, t, edit]: emit x at node n; when the reactive sink t (kind rsink) is handed x it performs `edit`
+ (["connect", u, d] | ["disconnect", u, d] | ["destroy", m]) from INSIDE its callback, i.e. while the element is being
+ delivered (oracle only: the Coq topology model has no step inside an emission)
 """
 import gc
 import logging
@@ -18,6 +21,26 @@ def run_case(case):
     ident = {}         # id(obj) -> index (only valid while alive)
     log = []
     obs = []
+    pending = {}       # rsink index -> edit to perform inside its callback
+    edit_exc = []
+
+    def apply_edit(ed):
+        if ed[0] == "connect":
+            held[ed[1]].connect(held[ed[2]])
+        elif ed[0] == "disconnect":
+            held[ed[1]].disconnect(held[ed[2]])
+        elif ed[0] == "destroy":
+            held[ed[1]].destroy()
+
+    def reactive(i):
+        def cb(x):
+            ed = pending.pop(i, None)
+            if ed is not None:
+                try:
+                    apply_edit(ed)
+                except Exception as e:      # noqa
+                    edit_exc.append(type(e).__name__)
+        return cb
 
     def idx_of(obj):
         return ident.get(id(obj), -1)
@@ -55,6 +78,8 @@ def run_case(case):
                     n = Stream() if not U else (U[0].map(lambda x: x) if len(U) == 1 else U[0].union(*U[1:]))
                 elif kind == "sink":
                     n = U[0].sink(lambda x: None)
+                elif kind == "rsink":
+                    n = U[0].sink(reactive(len(wr)))
                 elif kind == "zip":
                     n = streamz.zip(*U)
                 elif kind == "combine":
@@ -73,6 +98,11 @@ def run_case(case):
                 del n, U
             elif k == "emit":
                 held[op[1]].emit(op[2])
+            elif k == "remit":
+                pending.clear()
+                del edit_exc[:]
+                pending[op[3]] = op[4]
+                held[op[1]].emit(op[2])
             elif k == "connect":
                 held[op[1]].connect(held[op[2]])
             elif k == "disconnect":
@@ -90,6 +120,10 @@ def run_case(case):
                 for key in [kk for kk, v in ident.items() if v == i]:
                     del ident[key]
         obs.append({"raised": raised, "deliv": list(log), "links": snapshot()})
+        if op[0] == "remit":
+            obs[-1]["edit_raised"] = list(edit_exc)
+            obs[-1]["edit_done"] = op[3] not in pending
+            pending.clear()
     # cleanup: destroy remaining sinks so the global registry does not grow
     for i in list(held):
         n = held[i]
@@ -98,6 +132,7 @@ def run_case(case):
                 n.destroy()
         except Exception:
             pass
+    pending.clear()
     for i in range(len(wr)):
         n = wr[i]()
         if n is not None and type(n).__name__ == "sink":
